@@ -49,7 +49,7 @@ def obligations_c02(tier):
     T = float(os.environ.get('VERIF_XH_TIMEOUT') or (300 if quick else 1800))
     _, nmig = _nmenu()
     obs = []
-    nrec = 4 if quick else 6
+    nrec = 4 if quick else 7
     for ra in range(nrec):
         for rb in range(nrec):
             if quick:
@@ -100,7 +100,7 @@ def obligations_c10(tier):
     T = float(os.environ.get('VERIF_XH_TIMEOUT') or (300 if quick else 1800))
     _, nmig = _nmenu()
     obs = []
-    nrec = 4 if quick else 6
+    nrec = 4 if quick else 7
     for r1 in range(nrec):
         for r2 in range(nrec):
             if quick:
